@@ -1064,8 +1064,7 @@ class RecordArray(Content):
     def field(self, which):
         if isinstance(which, str):
             which = self.fieldindex(which)
-        x = self._contents[which]
-        return x if len(x) == self._n else x[0:self._n]
+        return self._contents[which]          # as src/python/content.cpp: the field as it is stored, NOT cut to the record length
 
     def fields(self):
         return self.contents
